@@ -73,7 +73,7 @@ type Op struct {
 	F   *CFn     `json:"f,omitempty"`
 	X   *Item    `json:"x,omitempty"`
 	// "" = package schema; copy / merge: "compose" = through compose's streamReaderPacker; conv (F = identity):
-	// "any" = through toAnyStreamReader and the interface path of unpackStreamReader, "key" = withKey and back
+	// "any" = through toAnyStreamReader and the interface path of unpackStreamReader, "key" = withKey and back, "nil" = a stream of any in which the zero value is a nil chunk
 	Via string `json:"via,omitempty"`
 	// array: 0 = the slice handed to StreamReaderFromArray is allocated with exactly its length;
 	// 1 = it is a window of one arena shared by the array sources of the case (spare capacity
